@@ -35,6 +35,8 @@ type fakeWorld struct {
 	created int
 	auto    bool // storm mode: a plot ends by itself after a moment (completed or not), no events
 	autoN   int
+	parkDel chan struct{} // non-nil: Delete announces itself on inDel and waits here before erasing
+	inDel   chan struct{}
 }
 
 func ekey(dir string, ord int64, pk *pocec.PublicKey, bl int) string {
@@ -182,6 +184,10 @@ func (d *fakeDB) Delete() chan error {
 	if atomic.LoadInt32(&d.plotting) != 0 {
 		result <- errors.New("already plotting")
 		return result
+	}
+	if p := d.w.parkDel; p != nil {
+		d.w.inDel <- struct{}{}
+		<-p
 	}
 	d.w.mu.Lock()
 	d.e.exists = false
